@@ -55,7 +55,106 @@ func genRemote() {
 	emit("runClearCache", cmd, "run", func(s string) bool {
 		return contains(s, "e.Setup()") || contains(s, "ClearCache") || contains(s, "cachePath")
 	})
+	// C20 chains: the cache is consulted (and cached bytes are returned where no network is
+	// needed) before the context is looked at for the first time
+	emit("cacheBeforeCtx", tf, "Reader.readRemoteNodeContent", func(s string) bool {
+		return mentionsIdent(s, "ctx") || contains(s, "NewCacheNode") || contains(s, "cache.Read()") || contains(s, "return cachedBytes")
+	})
+	// … and one context — the one made in readTaskfile — is handed down unchanged to every node read
+	var flow []string
+	for _, fn := range []string{"Reader.Read", "Reader.include", "Reader.readNode", "Reader.readNodeContent",
+		"Reader.readRemoteNodeContent", "HTTPNode.ReadContext", "RemoteExists"} {
+		fd := tf.funcDecl(fn)
+		if fd == nil || fd.Body == nil {
+			fatal("genRemote: function %s not found", fn)
+		}
+		for _, u := range identUses(fd.Body, "ctx") {
+			flow = append(flow, fn+": "+u)
+		}
+	}
+	l.strList("ctxFlow", wrapLines(flow, 96))
+	var makers []string
+	addMakers := func(p *pkgFiles, dir string, only string) {
+		for _, fname := range p.sortedFiles() {
+			if only != "" && fname != only {
+				continue
+			}
+			for _, d := range p.files[fname].Decls {
+				fd, ok := d.(*ast.FuncDecl)
+				if !ok || fd.Body == nil {
+					continue
+				}
+				ast.Inspect(fd.Body, func(n ast.Node) bool {
+					if ce, ok := n.(*ast.CallExpr); ok {
+						if se, ok := ce.Fun.(*ast.SelectorExpr); ok {
+							if x, ok := se.X.(*ast.Ident); ok && x.Name == "context" {
+								makers = append(makers, dir+fname+" "+funcName(fd)+": "+src(ce))
+							}
+						}
+					}
+					return true
+				})
+			}
+		}
+	}
+	addMakers(root, "", "setup.go")
+	addMakers(tf, "taskfile/", "")
+	l.strList("ctxMakers", wrapLines(makers, 96))
 	l.write()
+}
+
+// mentionsIdent: `name` occurs in s as a whole identifier
+func mentionsIdent(s, name string) bool {
+	isId := func(b byte) bool {
+		return b == '_' || (b >= '0' && b <= '9') || (b >= 'a' && b <= 'z') || (b >= 'A' && b <= 'Z')
+	}
+	for i := 0; i+len(name) <= len(s); i++ {
+		if s[i:i+len(name)] == name && (i == 0 || !isId(s[i-1])) && (i+len(name) == len(s) || !isId(s[i+len(name)])) {
+			return true
+		}
+	}
+	return false
+}
+
+// identUses: every use of the identifier `name` in a function body, in source order, shown as
+// the innermost call it is an argument or the receiver of (`f(name, …)`, `name.M()`), or as
+// `ASSIGN <stmt>` where it is assigned or redeclared
+func identUses(body *ast.BlockStmt, name string) []string {
+	var out []string
+	var stack []ast.Node
+	ast.Inspect(body, func(n ast.Node) bool {
+		if n == nil {
+			stack = stack[:len(stack)-1]
+			return true
+		}
+		if id, ok := n.(*ast.Ident); ok && id.Name == name {
+			shown := ""
+			for i := len(stack) - 1; i >= 0 && shown == ""; i-- {
+				switch p := stack[i].(type) {
+				case *ast.AssignStmt:
+					for _, lhs := range p.Lhs {
+						if l, ok := lhs.(*ast.Ident); ok && l == id {
+							shown = "ASSIGN " + src(p)
+						}
+					}
+					if shown == "" {
+						shown = "STMT " + src(p)
+					}
+				case *ast.CallExpr:
+					shown = src(p)
+				case ast.Stmt:
+					shown = "STMT " + src(p)
+				}
+			}
+			if shown == "" {
+				shown = "?"
+			}
+			out = append(out, shown)
+		}
+		stack = append(stack, n)
+		return true
+	})
+	return out
 }
 
 // wrapLines breaks long statements into pieces of at most n bytes (continuations start
